@@ -8,6 +8,12 @@ pub fn read_type(src: &mut &[u8]) -> Result<Option<Type>, DecodeError> {
     let mut len = usize::from(encoding >> 4);
 
     if len == 0x0f {
+        // The length that follows is a typed scalar integer, i.e., its own descriptor cannot be
+        // in the "length follows" form.
+        if src.first().is_some_and(|b| !matches!(b, 0x11..=0x13)) {
+            return Err(DecodeError::InvalidLengthValue);
+        }
+
         let value = read_value(src).map_err(|e| DecodeError::InvalidValue(Box::new(e)))?;
 
         len = match value.and_then(|v| v.as_int()) {
